@@ -14,8 +14,38 @@ The proposed known findings must be passed as -known so that they do not stop th
 """
 import os
 os.makedirs('/var/tmp/w2sens',exist_ok=True)
+import json as _j
+_j.dump(_j.load(open('/verif/known_findings.json'))+_j.load(open('/verif/sim/worlds/daemon/PROPOSED_FINDINGS.json')),open('/var/tmp/w2sens/known.json','w'))  # def _known
 import sys,os,subprocess,shutil,json,time
 muts={
+ 'M14-closehostports-drops-lock-while-closing':('C14','pkg/network/portmapping/portmapping.go',"""	h.Lock()
+	defer h.Unlock()
+	// In case of kubelet restart, the port should have been closed
+	if ports, ok := h.podPortMap[podFullName]; ok {
+		for port, closer := range ports {
+			if err := closer.Close(); err != nil {
+				glog.Errorf("Cannot clean up hostport %v for pod %s: %v", port, podFullName, err)
+			}
+		}
+		delete(h.podPortMap, podFullName)
+	}""","""	h.Lock()
+	ports, ok := h.podPortMap[podFullName]
+	h.Unlock()
+	if ok {
+		for port, closer := range ports {
+			if err := closer.Close(); err != nil {
+				glog.Errorf("Cannot clean up hostport %v for pod %s: %v", port, podFullName, err)
+			}
+		}
+		h.Lock()
+		delete(h.podPortMap, podFullName)
+		h.Unlock()
+	}"""),
+ 'M15-gc-keeps-state-file-when-port-clean-fails':('C17','pkg/gc/flannel_gc.go',"""		glog.Warningf("failed to clean port of file %s: %v", file, err)
+""","""		glog.Warningf("failed to clean port of file %s: %v", file, err)
+		return
+"""),
+
  'M13-args-map-shared-across-requests':('C12','pkg/api/cniutil/cni.go','return &NetworkInfo{NetworkType: networkType, Args: map[string]string{}, Conf: conf, IfName: ifName}','return &NetworkInfo{NetworkType: networkType, Args: sharedArgsM, Conf: conf, IfName: ifName}\n}\n\nvar sharedArgsM = map[string]string{}\n\nfunc unusedM() {'),
  'M1-del-forward-order':('C12','pkg/api/cniutil/cni.go','for idx := lastIdx; idx >= 0; idx-- {','for idx := 0; idx <= lastIdx; idx++ {'),
  'M2-skip-rollback':('C12','pkg/api/cniutil/cni.go','delErr := CmdDel(cmdArgs, idx)','var delErr error; _ = idx'),
@@ -62,7 +92,7 @@ for name in which:
     b=r.stdout.strip(); tb=time.time()-t0
     out='/var/tmp/w2sens/%s.json'%name
     t1=time.time()
-    r=subprocess.run([b,'-prop',prop,'-budget','25','-out',out,'-replaydir','/var/tmp/w2sens/replays/'+name,'-known','/verif/sim/worlds/daemon/PROPOSED_FINDINGS.json'],capture_output=True,text=True)
+    r=subprocess.run([b,'-prop',prop,'-budget','25','-out',out,'-replaydir','/var/tmp/w2sens/replays/'+name,'-known','/var/tmp/w2sens/known.json'],capture_output=True,text=True)
     rep=json.load(open(out))
     viol=[os.path.basename(v) for v in (rep.get('violations') or [])]
     print('%-36s %s exit=%d runs=%d wall=%.1fs build=%.0fs violations=%s infra=%s'%(name,prop,r.returncode,rep['runs'],time.time()-t1,tb,viol,(rep.get('infra') or [])[:1]))
